@@ -51,16 +51,21 @@ Definition pieces (raw : bytes) : list bytes := trans_split (runes raw) [] None.
 
 Definition str_in (s : bytes) (l : list bytes) : bool := existsb (bytes_eqb s) l.
 
-(* `if current == from { current = to }`, one after the other *)
-Definition rewrite_aliases (tbl : list (bytes * bytes)) (c : bytes) : bytes :=
-  fold_left (fun c p => if bytes_eqb c (fst p) then snd p else c) tbl c.
+(* spelling table lookup: the value the implementation gives this (lower-cased) piece, or the piece itself *)
+Fixpoint spelling (tbl : list (bytes * bytes)) (c : bytes) : option bytes :=
+  match tbl with
+  | [] => None
+  | (f, t) :: r => if bytes_eqb f c then Some t else spelling r c
+  end.
 
 (* normalisation of one piece; [last] = it is the last piece of its raw token.
-   gen_maven_aliases: "" -> "0", cr -> rc, ga / final / release -> "";
-   gen_maven_aliases_before_digit (only when directly followed by a number): a -> alpha, b -> beta, m -> milestone *)
+   gen_maven_aliases (probed at the end of a part): "" -> "0", cr -> rc, ga / final / release -> "";
+   gen_maven_aliases_before_digit (probed directly before a digit): a -> alpha, b -> beta, m -> milestone *)
 Definition norm_piece (p : bytes) (last : bool) : bytes :=
-  let c := rewrite_aliases gen_maven_aliases (to_lower p) in
-  let c := if last then c else rewrite_aliases gen_maven_aliases_before_digit c in
+  let q := to_lower p in
+  let at_end := match spelling gen_maven_aliases q with Some v => v | None => q end in
+  let c := if last then at_end
+           else match spelling gen_maven_aliases_before_digit q with Some v => v | None => at_end end in
   match big_of_string c with Some z => Z_to_dec z | None => c end.
 
 Fixpoint toks_of_pieces (pfx : bytes) (ps : list bytes) : list mtok :=
